@@ -60,6 +60,22 @@ func (ex *Exec) paramNames(fn *ssa.Function, args []Value, res Value, haveRes bo
 	return names
 }
 
+// freeVarNames makes the variables a closure captures available to its contract under their source names (their
+// current content in st).
+func (ex *Exec) freeVarNames(st *State, fr *Frame, names map[string]Value) map[string]Value {
+	for i, fv := range fr.Fn.FreeVars {
+		if i >= len(fr.Bind) {
+			break
+		}
+		if p, ok := fr.Bind[i].(*PtrV); ok && p.Obj != nil {
+			if _, taken := names[fv.Name()]; !taken {
+				names[fv.Name()] = ex.load(st, p, nil)
+			}
+		}
+	}
+	return names
+}
+
 // VerifyFunction symbolically executes fn against its contract (may be nil: safety only).
 func (ex *Exec) VerifyFunction(fn *ssa.Function, ct *Contract) {
 	if len(fn.Blocks) == 0 {
@@ -93,13 +109,17 @@ func (ex *Exec) VerifyFunction(fn *ssa.Function, ct *Contract) {
 			fr.Locals[p] = v
 		}
 		for _, fv := range fn.FreeVars {
+			// a captured variable is a cell that exists: the pointer to it is never nil
+			save := ex.G.nonNil
+			ex.G.nonNil = true
 			fr.Bind = append(fr.Bind, ex.G.Fresh(fv.Type(), "fv_"+fv.Name()))
+			ex.G.nonNil = save
 		}
 		fr.Args = args
 		st.Frames = []*Frame{fr}
 		if ct != nil {
 			var errs []string
-			env := &Env{ex: ex, st: st, names: ex.paramNames(fn, args, nil, false), errs: &errs}
+			env := &Env{ex: ex, st: st, names: ex.freeVarNames(st, fr, ex.paramNames(fn, args, nil, false)), errs: &errs}
 			for _, rq := range ct.Requires {
 				t := env.evalBool(&rq.Expr)
 				if t == nil {
@@ -139,7 +159,7 @@ func (ex *Exec) finish(st *State, fr *Frame, res Value) {
 		return
 	}
 	ex.event(st, &Event{Callee: "return", Args: fr.Args, Results: tupleElems(res), Fn: fr.Fn, Kind: "return"})
-	names := ex.paramNames(fr.Fn, fr.Args, res, true)
+	names := ex.freeVarNames(st, fr, ex.paramNames(fr.Fn, fr.Args, res, true))
 	for i, en := range ct.Ensures {
 		var errs []string
 		env := &Env{ex: ex, st: st, names: names, errs: &errs}
@@ -546,7 +566,7 @@ func (ex *Exec) loopNames(st *State, fr *Frame, lp *Loop) map[string]Value {
 		k := fmt.Sprintf("%d", lp.Ordinal)
 		alias(base.Phis[k], curPhis[k])
 	}
-	return names
+	return ex.freeVarNames(st, fr, names)
 }
 
 func (ex *Exec) loopInvs(fr *Frame, lp *Loop) []*Clause {
@@ -678,6 +698,10 @@ func (ex *Exec) havocLoop(st *State, fr *Frame, lp *Loop) {
 		}
 	}
 	ws := ex.loopWriteSet(fr.Fn, lp)
+	if ws.Unknown {
+		ws = ws.clone()
+		ex.dynamicCallees(st, ws)
+	}
 	for callee := range ws.Calls {
 		if ct := ex.Specs.Contracts[callee]; ct != nil {
 			for _, ef := range ct.Effects {
@@ -961,7 +985,7 @@ func (ex *Exec) onEvent(st *State, ev *Event) {
 			continue
 		}
 		ex.noteHit(tc)
-		names := ex.paramNames(fr0.Fn, fr0.Args, nil, false)
+		names := ex.freeVarNames(st, fr0, ex.paramNames(fr0.Fn, fr0.Args, nil, false))
 		ex.eventNames(names, "a", ev)
 		var errs []string
 		env := &Env{ex: ex, st: st, names: names, errs: &errs}
